@@ -418,8 +418,10 @@ def reshape(t, shape):
     return Tens(shape, t.data, t.meta)
 
 
-def reduce(t, axis, keepdims, fold, symfold):
-    """fold(list of entries)->entry for concrete axes; symfold(entry, [lengths])->entry for symbolic ones"""
+def reduce(t, axis, keepdims, fold, symfold, sympartial=None):
+    """fold(list of entries)->entry for concrete axes; symfold(entry, [lengths])->entry for symbolic ones;
+    sympartial(entry, [lengths], [positions among the symbolic axes], number of symbolic axes) for a reduction over a
+    proper subset of the symbolic axes (None: unsupported)"""
     if axis is None:
         axes = list(range(t.ndim))
     elif isinstance(axis, (tuple, list)):
@@ -428,7 +430,8 @@ def reduce(t, axis, keepdims, fold, symfold):
         axes = [axis % t.ndim]
     caxes = [a for a in axes if not is_sym(t.shape[a])]
     saxes = [a for a in axes if is_sym(t.shape[a])]
-    if saxes and set(saxes) != set(t.sym_axes()):
+    partial = bool(saxes) and set(saxes) != set(t.sym_axes())
+    if partial and sympartial is None:
         raise Unsupported(f"reduction over a proper subset of the symbolic axes {saxes} of shape {t.shape}")
     cs = cshape(t.shape)
     out_shape_full = [1 if a in axes else d for a, d in enumerate(t.shape)]
@@ -439,7 +442,10 @@ def reduce(t, axis, keepdims, fold, symfold):
     data = []
     for idx in itertools.product(*[range(d) for d in cshape(out_shape_full)]):
         e = fold(groups[idx])
-        if saxes:
+        if partial:
+            allsym = list(t.sym_axes())
+            e = sympartial(e, [t.shape[a] for a in saxes], [allsym.index(a) for a in saxes], len(allsym))
+        elif saxes:
             e = symfold(e, [t.shape[a] for a in saxes])
         data.append(e)
     res = Tens(out_shape_full, data, t.meta)
